@@ -259,8 +259,9 @@ def check_documented(case, out):
         return "a value violating a declared constraint is accepted (-> %r)" % (r[1],)
     if d and r[0] == "ok":
         try:
-            if not (r[1] == case["value"]):
-                return "accepted value altered: %r -> %r" % (case["value"], r[1])
+            v = case["value"]
+            if not (r[1] == v) and not (r[1] != r[1] and v != v):
+                return "accepted value altered: %r -> %r" % (v, r[1])
         except Exception:
             pass
     return None
